@@ -7,22 +7,41 @@
 (* (PrimStateOK) and that Event.Wait returns only in a set state.  This is *)
 (* the reference the encoding model (PrimEnc) and the trace monitor        *)
 (* (mon/MonPrim) are phrased against.                                      *)
+(*                                                                         *)
+(* ACROSS TIME (RTick): every hold is taken with the expiry rex and ends   *)
+(* with it (a re-entrant acquisition renews it); a released unit and a     *)
+(* lapsed unit are free again for the waiters; a waiting request gives up  *)
+(* after rto seconds; the hold behind an Event state (Clear of a           *)
+(* default-set event, Set of a default-clear event) lapses the same way,   *)
+(* what Set / Clear establish by DROPPING the hold stays.  The reference   *)
+(* is exact to the second; Primitives!PrimLive / PrimGone are the two-     *)
+(* sided bracket a monitor may assume without knowing in which second the  *)
+(* server's sweep ran (RBracket).                                          *)
 (***************************************************************************)
 EXTENDS Primitives, TLC
 
-CONSTANTS RKinds, RNs, RProcs, RMaxDepth, RPrios
+CONSTANTS RKinds, RNs, RProcs, RMaxDepth, RPrios,
+          REXs, RTOs,    \* expiry of a hold / timeout of a waiting request (seconds), one value per behaviour
+          RMaxNow        \* clock bound, 0 = the clock stands still
 
-VARIABLES rkind, rn, HT, WT, evset, evwait
-rvars == <<rkind, rn, HT, WT, evset, evwait>>
+VARIABLES rkind, rn, HT, WT, evset, evwait, rnow, rex, rto, rt
+rvars == <<rkind, rn, HT, WT, evset, evwait, rnow, rex, rto, rt>>
 
-\* WT: waiting requests  proc -> [rl, prio]
-WEmpty == [pp \in {} |-> [rl |-> "x", prio |-> 0]]
+\* WT: waiting requests  proc -> [rl, prio, since];  rt: proc -> second of its last admission
+\* evset: [last, t] the last Set / Clear call;  evwait: waiting Wait calls  proc -> since
+WEmpty == [pp \in {} |-> [rl |-> "x", prio |-> 0, since |-> 0]]
 
 RInit == /\ rkind \in RKinds /\ rn \in RNs
          /\ HT = PrimEmpty /\ WT = WEmpty
-         /\ evset = (rkind # "event_clear") /\ evwait = {}
+         /\ evset = [last |-> "none", t |-> 0] /\ evwait = [pp \in {} |-> 0]
+         /\ rnow = 0 /\ rex \in REXs /\ rto \in RTOs /\ rt = [pp \in RProcs |-> 0]
 
 IsLockKind == rkind \in PrimLockKinds
+Const == UNCHANGED <<rkind, rn, rex, rto>>
+
+\* the event is set (exact to the second: the hold behind a state lasts through second t + rex)
+HoldOn == rnow <= evset.t + rex
+IsSet == IF rkind = "event_set" THEN ~(evset.last = "clear" /\ HoldOn) ELSE evset.last = "set" /\ HoldOn
 
 Request(pp, rl, pr) ==
     /\ IsLockKind /\ pp \notin DOMAIN WT
@@ -31,37 +50,59 @@ Request(pp, rl, pr) ==
     /\ rkind # "rw" => rl = "x"
     /\ rkind # "prio" => pr = 0
     /\ IF PrimAdmissible(rkind, rn, pp, rl, HT) /\ (DOMAIN WT = {} \/ pp \in DOMAIN HT)
-       THEN HT' = PrimAdd(HT, pp, rl) /\ UNCHANGED WT
-       ELSE WT' = [qq \in (DOMAIN WT) \cup {pp} |-> IF qq = pp THEN [rl |-> rl, prio |-> pr] ELSE WT[qq]] /\ UNCHANGED HT
-    /\ UNCHANGED <<rkind, rn, evset, evwait>>
+       THEN HT' = PrimAdd(HT, pp, rl) /\ rt' = [rt EXCEPT ![pp] = rnow] /\ UNCHANGED WT
+       ELSE /\ WT' = [qq \in (DOMAIN WT) \cup {pp} |-> IF qq = pp THEN [rl |-> rl, prio |-> pr, since |-> rnow] ELSE WT[qq]]
+            /\ UNCHANGED <<HT, rt>>
+    /\ Const /\ UNCHANGED <<evset, evwait, rnow>>
 
 \* any admissible waiter may be admitted (no fairness policy is part of the statement), except PriorityLock
 Admit(pp) ==
     /\ IsLockKind /\ pp \in DOMAIN WT
     /\ PrimAdmissible(rkind, rn, pp, WT[pp].rl, HT)
     /\ rkind = "prio" => PrimHandOverOK(WT[pp].prio, {WT[qq].prio : qq \in (DOMAIN WT) \ {pp}})
-    /\ HT' = PrimAdd(HT, pp, WT[pp].rl)
+    /\ HT' = PrimAdd(HT, pp, WT[pp].rl) /\ rt' = [rt EXCEPT ![pp] = rnow]
     /\ WT' = [qq \in (DOMAIN WT) \ {pp} |-> WT[qq]]
-    /\ UNCHANGED <<rkind, rn, evset, evwait>>
+    /\ Const /\ UNCHANGED <<evset, evwait, rnow>>
 
+\* a release by a holder always succeeds and gives the unit back
 Release(pp) ==
     /\ IsLockKind /\ pp \in DOMAIN HT /\ pp \notin DOMAIN WT
     /\ HT' = PrimSub(HT, pp)
-    /\ UNCHANGED <<rkind, rn, WT, evset, evwait>>
+    /\ Const /\ UNCHANGED <<WT, evset, evwait, rnow, rt>>
 
-EvSet   == ~IsLockKind /\ evset' = TRUE /\ evwait' = {} /\ UNCHANGED <<rkind, rn, HT, WT>>
-EvClear == ~IsLockKind /\ evset' = FALSE /\ UNCHANGED <<rkind, rn, HT, WT, evwait>>
-EvWait(pp) == /\ ~IsLockKind /\ pp \notin evwait
-              /\ evwait' = IF evset THEN evwait ELSE evwait \cup {pp}    \* returns at once iff set
-              /\ UNCHANGED <<rkind, rn, HT, WT, evset>>
+EvSet   == /\ ~IsLockKind /\ evset' = [last |-> "set", t |-> rnow] /\ evwait' = [pp \in {} |-> 0]
+           /\ Const /\ UNCHANGED <<HT, WT, rnow, rt>>
+EvClear == /\ ~IsLockKind /\ evset' = [last |-> "clear", t |-> rnow]
+           /\ Const /\ UNCHANGED <<HT, WT, evwait, rnow, rt>>
+EvWait(pp) == /\ ~IsLockKind /\ pp \notin DOMAIN evwait
+              /\ evwait' = IF IsSet THEN evwait                               \* returns at once iff set
+                            ELSE [qq \in (DOMAIN evwait) \cup {pp} |-> IF qq = pp THEN rnow ELSE evwait[qq]]
+              /\ Const /\ UNCHANGED <<HT, WT, evset, rnow, rt>>
+
+\* one second passes: holds older than rex end, requests that waited rto seconds give up, the Event hold lapses
+\* (a default-set event is set again: its waiters return)
+RTick ==
+    /\ rnow < RMaxNow /\ rnow' = rnow + 1
+    /\ HT' = [pp \in {qq \in DOMAIN HT : rnow + 1 <= rt[qq] + rex} |-> HT[pp]]
+    /\ WT' = [pp \in {qq \in DOMAIN WT : rnow + 1 <= WT[qq].since + rto} |-> WT[pp]]
+    /\ evwait' = IF rkind = "event_set" /\ evset.last = "clear" /\ rnow + 1 > evset.t + rex THEN [pp \in {} |-> 0]
+                  ELSE [pp \in {qq \in DOMAIN evwait : rnow + 1 <= evwait[qq] + rto} |-> evwait[pp]]
+    /\ Const /\ UNCHANGED <<evset, rt>>
 
 RNext == \/ \E pp \in RProcs, rl \in {"x", "r", "w"}, pr \in RPrios \cup {0} : Request(pp, rl, pr)
          \/ \E pp \in RProcs : Admit(pp) \/ Release(pp) \/ EvWait(pp)
-         \/ EvSet \/ EvClear
+         \/ EvSet \/ EvClear \/ RTick
 
 RSpec == RInit /\ [][RNext]_rvars
 
 RStateOK == PrimStateOK(rkind, rn, HT)
-RWaitersBlocked == evset => evwait = {}                       \* a waiter is blocked only while the event is clear
+RWaitersBlocked == IsSet => DOMAIN evwait = {}                \* a waiter is blocked only while the event is clear
 RDepthBounded == \A pp \in DOMAIN HT : HT[pp].depth \in 1..RMaxDepth
+\* no hold outlives its expiry, no request waits longer than its timeout
+RNoStaleHold == /\ \A pp \in DOMAIN HT : rnow <= rt[pp] + rex
+                /\ \A pp \in DOMAIN WT : rnow <= WT[pp].since + rto
+\* the bracket a monitor may assume: a hold is there while PrimLive, gone once PrimGone; the same for the event state
+RBracket == /\ \A pp \in DOMAIN HT : ~PrimGone(rt[pp], rex, rnow)
+            /\ PrimEvDefSet(rkind, evset.last, evset.t, rex, rnow) => IsSet
+            /\ PrimEvDefClear(rkind, evset.last, evset.t, rex, rnow) => ~IsSet
 =============================================================================
